@@ -142,6 +142,25 @@ RES = {
  "C10-G": ("C10", "caught by quick C10 (hang:DB.OpenTransaction, hang:DB.Write/putRec); same change as C09-C", ""),
  "C10-H": ("C10", "caught by quick C10 (hang:db_write.go:DB.putRec, wgroup:ack-before-log); same change as C09-A", "missed at first: needs a journal write failure among concurrent writers; 12% of C10 cases now inject journal write/sync failures, which also exposed a genuine defect on the unchanged tree (fix 8e73cda)"),
 
+ "C11-G": ("C11", "caught by quick C11 (txget:has-mismatch)", ""),
+ "C11-H": ("C11", "caught by quick C11 and quick C05 (snap-unstable)", "missed at first: needs a snapshot taken while Commit is writing its manifest record and read again after Commit has returned; concurrent clients now keep each snapshot open over their next operation and read it a second time, and 12% of C11 cases are plain concurrent programs (transactions, snapshot takers, readers, writers)"),
+ "C12-G": ("C12", "caught by quick C12 (journal:strict-silent, journal:invented)", ""),
+ "C12-H": ("C12", "caught by quick C12 (journal:strict-silent, journal:invented)", ""),
+ "C13-G": ("C13", "caught by quick C13 (table:iter)", ""),
+ "C13-H": ("C13", "caught by quick C13 (table:find-filtered)", ""),
+ "C14-G": ("C14", "caught by quick C14 (hang: recursive read lock in dbIter.Prev/Last against a waiting Put)", ""),
+ "C14-H": ("C14", "caught by quick C14 (memdb:get-mismatch, panic:memdb.(*DB).Get)", ""),
+ "C16-G": ("C16", "caught by quick C16 (get:mismatch, get:has-mismatch) and quick C13 (table:hidden)", "missed at first (also by C13): needs block checksums switched off and a damaged filter block; 8% of C16 cases now run without StrictBlockChecksum and alter filter blocks at rest, and the table component reads damaged tables through the filter as well"),
+ "C16-H": ("C16", "caught by quick C16 (panic:leveldb.internalKey.assert, recover:lost-undamaged); same change as C19-F", ""),
+ "C17-G": ("C17", "caught by quick C17 (cache:delfunc-never, cache:not-finalized)", ""),
+ "C17-H": ("C17", "caught by quick C17 (cache:delfunc-never)", "missed at first, and not for lack of a scenario: `n.delFuncs = append(n.delFuncs, f)` is one statement, and with one scheduling point per statement two goroutines could never interleave inside it. The instrumenter now splits field read-modify-writes (x.f = append(x.f, ...), x.f++, x.f op= e) into read, scheduling point, write"),
+ "C18-G": ("C18", "caught by quick C18 (hang:db.go:DB.Close, hang:DB.putRec); same change as C09-C and C10-G", ""),
+ "C18-H": ("C18", "caught by quick C18 (hang:db_write.go:DB.CompactRange)", ""),
+ "C19-G": ("C19", "caught by quick C19 (lsm:bounds, recover:lost-undamaged)", ""),
+ "C19-H": ("C19", "caught by quick C19 (lsm:bounds, recover:lost-undamaged)", ""),
+ "C20-G": ("C20", "caught by quick C20 (get:has-mismatch, get:mismatch)", "missed at first: needs an empty value and a caller that grows the returned slice in place; single-client programs now store empty values (4%), and scribbling covers the spare capacity behind a returned value. The first run with both crashed a worker (a simrt bug: the panic value was formatted, through instrumented code, while the scheduler lock was held), reported as TROUBLE, not as a verdict, and fixed"),
+ "C20-H": ("C20", "caught by quick C20 (panic:table.(*block).seek, panic:leveldb.(*DB).tCompaction)", "missed at first: see C20-G"),
+
 }
 os.makedirs("/verif/seeded", exist_ok=True)
 rows = []
